@@ -69,7 +69,11 @@ static J gen_plan_inner(const std::string &scen, uint64_t seed, const J &ov);
 J gen_plan(const std::string &scen, uint64_t seed, const J &ov)
 {
 	J p = gen_plan_inner(scen, seed, ov);
-	if (ov.getb("pair")) p.set("pair_residue", (int)(1 + splitmix64(seed ^ 0x51ed) % 4));
+	if (ov.getb("pair")) {
+		p.set("pair_residue", (int)(1 + splitmix64(seed ^ 0x51ed) % 4));
+		// history differential: only where an out-of-domain query is inert (no -b forwarding) and the server is the judged party
+		if ((scen == "hostile_srv" || scen == "sessions") && !p["cfg"].geti("bind_port") && splitmix64(seed ^ 0xdec0) % 2 == 0) p.set("pair_decoy", true);
+	}
 	return p;
 }
 static J gen_plan_inner(const std::string &scen, uint64_t seed, const J &ov)
@@ -109,6 +113,7 @@ J run_plan(const J &plan, int verbose, const char *trace_path)
 	w->S.verbose = verbose;
 	if (trace_path) w->S.trace = fopen(trace_path, "w");
 	if (plan.has("residue_override")) w->S.residue_mode = (int)plan.geti("residue_override");
+	if (plan.has("decoy_override")) w->S.decoy_variant = (int)plan.geti("decoy_override");
 	w->run();
 	J r = w->result();
 	if (w->S.trace) fclose(w->S.trace);
@@ -225,6 +230,7 @@ static std::string run_maybe_pair(const J &plan, int verbose, const char *trace_
 	J pa = plan, pb = plan;
 	pa.set("residue_override", 0);
 	pb.set("residue_override", (int)plan.geti("pair_residue"));
+	if (plan.getb("pair_decoy")) { pa.set("decoy_override", 1); pb.set("decoy_override", 2); }
 	std::string sa = run_child(pa, verbose, trace_path, watchdog_s, sanlog_dir);
 	std::string tb = trace_path ? std::string(trace_path) + ".b" : std::string();
 	std::string sb = run_child(pb, verbose, trace_path ? tb.c_str() : nullptr, watchdog_s, sanlog_dir);
